@@ -125,6 +125,7 @@ def execute(case, ctx):
         rout = real_eval(parser, src, names, budget=10 ** 6)
         ctx.event(step, kind, rout.kind, canon.digest(rout.brief()))
         ctx.stats['entropy_draws'] += ENTROPY.draws
+        ctx.state(canon.digest([kind, ENTROPY.draws, ENTROPY.extreme_draws, rout.kind]))
         if ENTROPY.extreme_draws:
             ctx.fault('entropy_extreme', ENTROPY.extreme_draws)
             ctx.probe('extreme_prefix_consumed')
